@@ -239,7 +239,7 @@ func (c *fnCtx) labelsAt(v ssa.Value, use ssa.Instruction) lset {
 	}
 	for _, o := range objs {
 		for _, ct := range c.cont[o] {
-			if ireach(ct.In, use) {
+			if ct.In == nil || ireach(ct.In, use) {
 				l.union(ct.L)
 			}
 		}
@@ -680,6 +680,27 @@ func (e *taintEngine) analyse(fn *ssa.Function) {
 						recv := com.Args[0]
 						for _, al := range fieldLoadAliases(fn, recv) {
 							c.cont[al] = append(c.cont[al], contTaint{x, l})
+						}
+						// a container kept in a variable: every load of that variable is the container.
+						// When the variable lives longer than this invocation (captured, global) the
+						// secret put in now is still there when the function is entered again: the
+						// taint holds for every use, also those in front of the Set.
+						if ld, ok := recv.(*ssa.UnOp); ok && ld.Op == token.MUL {
+							var at ssa.Instruction = x
+							switch ld.X.(type) {
+							case *ssa.FreeVar, *ssa.Global:
+								at = nil
+							}
+							for _, b2 := range fn.Blocks {
+								for _, in2 := range b2.Instrs {
+									if l2, ok := in2.(*ssa.UnOp); ok && l2.Op == token.MUL && l2.X == ld.X && l2 != ld {
+										c.cont[l2] = append(c.cont[l2], contTaint{at, l})
+									}
+								}
+							}
+							if at == nil {
+								c.cont[recv] = append(c.cont[recv], contTaint{nil, l})
+							}
 						}
 						c.cont[recv] = append(c.cont[recv], contTaint{x, l})
 						if mi, ok := recv.(*ssa.MakeInterface); ok {
